@@ -9,6 +9,7 @@ import os
 import random
 import shutil
 import subprocess
+import zlib
 
 from common import *
 import hexfiles
@@ -139,7 +140,7 @@ def check(prop, tier, seed):
         for srcname in srcs:
             for oloc in LOCS:
                 for eloc in LOCS:
-                    if tier == "quick" and oloc not in ("default", "writable") and eloc not in ("default", "writable") and (hash((srcname, oloc, eloc)) % 3):
+                    if tier == "quick" and oloc not in ("default", "writable") and eloc not in ("default", "writable") and ((zlib.crc32((srcname + oloc + eloc).encode()) + seed) % 3):
                         continue
                     for srcform in ("abs", "rel-dir", "rel-here"):
                         if tier == "quick" and srcform != ["abs", "rel-dir", "rel-here"][(len(combos)) % 3] and oloc != "default":
